@@ -17,7 +17,9 @@
 (*          len_after = MAX_STREAMS+1 -> wake stream len_after-2            *)
 (*   wake_stream(s): peek wakers[s] without the lock; Some -> wake;         *)
 (*          None -> lock, look again (wake if Some), unlock                 *)
-(*   poll:  dequeue; nothing -> read keep[s]; FALSE -> end of stream;       *)
+(*   poll:  dequeue; nothing -> read keep[s]; FALSE -> dequeue once more    *)
+(*          (an event may have come in since), nothing again -> end of      *)
+(*          stream;                                                         *)
 (*          TRUE -> peek wakers[s]; Some (same waker) -> Pending;           *)
 (*          None -> lock, insert, unlock, wake the inserted waker, Pending  *)
 (*   cancel_all: for every stream id: keep[id] := FALSE; wake_stream(id)    *)
@@ -72,7 +74,7 @@ WakeTarget(la) == IF la <= MaxS THEN la - 1 ELSE IF la = MaxS + 1 THEN la - 2 EL
 \* a ring step; when it completes the ring operation, the thread runs on -- within the same scheduling step -- to the next
 \* scheduling point of the channel layer
 ChanRing(p) ==
-    /\ cpc[p] \in {"send", "poll"} /\ pc[p] # "ret"
+    /\ cpc[p] \in {"send", "poll", "poll2"} /\ pc[p] # "ret"
     /\ RStep(p)
     /\ IF pc'[p] # "ret"
        THEN UNCHANGED <<cpc, cs, cres>>
@@ -85,6 +87,8 @@ ChanRing(p) ==
             ELSE cres' = [cres EXCEPT ![p] = "full"] /\ cpc' = [cpc EXCEPT ![p] = "cret"] /\ UNCHANGED cs
        ELSE IF reg'[p].res.ok
             THEN cres' = [cres EXCEPT ![p] = "item"] /\ cpc' = [cpc EXCEPT ![p] = "cret"] /\ UNCHANGED cs
+            ELSE IF cpc[p] = "poll2"
+            THEN cres' = [cres EXCEPT ![p] = "end"] /\ cpc' = [cpc EXCEPT ![p] = "cret"] /\ UNCHANGED cs        \* nothing again: end of stream
             ELSE cpc' = [cpc EXCEPT ![p] = "K1"] /\ UNCHANGED <<cs, cres>>
     /\ UNCHANGED <<waker, wlock, keep, notified, stats>>
 
@@ -110,12 +114,23 @@ WakeUnlock(p) ==    \* wakers_lock store(false)
 
 -----------------------------------------------------------------------------
 \* the rest of poll_next after an empty consume
-KeepRead(p) ==      \* yield "sm.keep.read"
+\* the (empty) dequeue in progress returns and a second one starts, in one step (the monitor sees two dequeues)
+ReDeq(p) ==
+    /\ pc[p] = "ret" /\ reg[p].op.op = "deq"
+    /\ LET o  == [op |-> "deq", v |-> 0, i |-> 0]
+           c1 == LQ!LqRet(cands, pend, p, reg[p].res, Extra)
+           p1 == [pend EXCEPT ![p] = LQ!NoOp] IN
+       /\ cands' = LQ!LqCall(c1, p1, p, MonOpP(p, o), Extra)
+       /\ pend' = [pend EXCEPT ![p] = MonOpP(p, o)]
+       /\ reg' = [reg EXCEPT ![p].op = o]
+    /\ pc' = [pc EXCEPT ![p] = "D1"]
+    /\ UNCHANGED rvars
+KeepRead(p) ==      \* yield "sm.keep.read"; told to end -> consume once more before ending
     /\ cpc[p] = "K1"
     /\ IF keep[cs[p]]
-       THEN cpc' = [cpc EXCEPT ![p] = "R1"] /\ UNCHANGED cres
-       ELSE cpc' = [cpc EXCEPT ![p] = "cret"] /\ cres' = [cres EXCEPT ![p] = "end"]
-    /\ UNCHANGED <<vars, cs, waker, wlock, keep, notified, stats>>
+       THEN cpc' = [cpc EXCEPT ![p] = "R1"] /\ UNCHANGED vars
+       ELSE cpc' = [cpc EXCEPT ![p] = "poll2"] /\ ReDeq(p)
+    /\ UNCHANGED <<cs, cres, waker, wlock, keep, notified, stats>>
 WakerPeek(p) ==     \* yield "sm.waker.peek": already registered (the task always presents the same waker) -> nothing to do
     /\ cpc[p] = "R1"
     /\ IF waker[cs[p]]
